@@ -18,12 +18,16 @@ class InjectedOSError(OSError):
 
 
 class FaultPlan(object):
-    """faults: list of dicts {kind: open|write|read|close|flush, nth: int,
-    errno: int, keep: int (bytes of the failing write that still reach the file)}"""
+    """faults: list of dicts {kind: open|write|read|close|flush|stat|short_write, nth: int,
+    errno: int, keep: int (bytes of the failing write that still reach the file)}
+
+    `stat` fails an os.stat() on a path inside the simulated directory (what Path.exists() rests on).
+    `short_write` is not an error: a RAW binary file (opened with buffering=0) accepts only part of what it is given
+    and says so in its return value, as a raw write may; buffered files never do that (io.BufferedWriter retries)."""
 
     def __init__(self, faults=()):
         self.faults = [dict(f) for f in faults]
-        self.count = {"open": 0, "write": 0, "read": 0, "close": 0, "flush": 0}
+        self.count = {"open": 0, "write": 0, "read": 0, "close": 0, "flush": 0, "stat": 0, "short_write": 0}
         self.fired = []
         self.armed = True
 
@@ -65,6 +69,15 @@ class ProxyFile(object):
                     keep = keep[:0]   # wrong payload type for this file: nothing reaches it
             seam.events.append(("write_fault", self._rel, len(keep)))
             raise InjectedOSError(f["errno"], os.strerror(f["errno"]), self._rel)
+        if getattr(self, "_raw", False) and seam.plan is not None and len(data) > 1:
+            f = seam.plan.hit("short_write")
+            if f is not None:
+                k = max(1, min(len(data) - 1, f.get("keep", 0) or len(data) // 2))
+                self._real.write(data[:k])
+                self._real.flush()
+                seam.events.append(("short_write", self._rel, k, len(data)))
+                seam.bytes_written += k
+                return k
         n = self._real.write(data)
         if getattr(self, "_write_through", True):
             # write-through: nothing may sit in a user-space buffer that a late (garbage
@@ -175,6 +188,7 @@ class FsSeam(object):
         self.zombies = []
         self._orig_open = None
         self._orig_io_open = None
+        self._orig_stat = None
 
     def rel(self, path):
         try:
@@ -201,6 +215,10 @@ class FsSeam(object):
         real = self._orig_open(file, mode, *args, **kwargs)
         self.events.append(("open", rel, mode))
         px = ProxyFile(self, real, rel, mode)
+        buffering = args[0] if args else kwargs.get("buffering", -1)
+        if buffering == 0 and "b" in mode:
+            object.__setattr__(px, "_raw", True)
+            self.events.append(("raw_open", rel, mode))
         if any(c in mode for c in "wa+x"):
             # who opened it?  A handle opened inside a third-party wrapper (gzip) is written through and
             # swept; one opened by the code under test itself keeps its user-space buffer, so that a leak
@@ -219,16 +237,30 @@ class FsSeam(object):
             self.open_writers.append(px)
         return px
 
+    def _stat(self, path, *args, **kwargs):
+        plan = self.plan
+        if plan is not None and plan.armed and any(f["kind"] == "stat" and not f.get("done") for f in plan.faults):
+            rel = None if isinstance(path, int) else self.rel(path)
+            if rel is not None:
+                f = plan.hit("stat")
+                if f is not None:
+                    self.events.append(("stat_fault", rel))
+                    raise InjectedOSError(f["errno"], os.strerror(f["errno"]), rel)
+        return self._orig_stat(path, *args, **kwargs)
+
     def install(self):
         self._orig_open = builtins.open
         self._orig_io_open = io.open
+        self._orig_stat = os.stat
         builtins.open = self._open
         io.open = self._open
+        os.stat = self._stat
 
     def uninstall(self):
         if self._orig_open is not None:
             builtins.open = self._orig_open
             io.open = self._orig_io_open
+            os.stat = self._orig_stat
             self._orig_open = None
 
     def sweep(self):
